@@ -61,9 +61,19 @@ def quad(
     fwd_options["method"] = method
 
     # the integrand is always evaluated at tensors (the quadrature points), so
-    # probe its output with a tensor as well, even if the limits are python numbers
-    xprobe = xl if isinstance(xl, torch.Tensor) else \
-        torch.as_tensor(xl, dtype=torch.get_default_dtype())
+    # probe its output with a tensor as well, even if the limits are python numbers.
+    # The probe takes the precision of BOTH limits (the widest one among the limits
+    # given as tensors; a python number adapts to the other limit, as in torch's
+    # type promotion): taken from xl alone, a float64 tensor given as xu would be
+    # rounded to the precision found at xl
+    if isinstance(xl, torch.Tensor) and isinstance(xu, torch.Tensor):
+        xprobe = xl.to(torch.promote_types(xl.dtype, xu.dtype))
+    elif isinstance(xl, torch.Tensor):
+        xprobe = xl
+    elif isinstance(xu, torch.Tensor) and xu.dtype.is_floating_point:
+        xprobe = torch.as_tensor(xl, dtype=xu.dtype)
+    else:
+        xprobe = torch.as_tensor(xl, dtype=torch.get_default_dtype())
     out = fcn(xprobe, *params)
     if isinstance(out, torch.Tensor):
         dtype = out.dtype
